@@ -3,3 +3,5 @@ import LLRP.Props.C02
 import LLRP.Props.C11
 import LLRP.Props.C19
 import LLRP.Props.C18
+import LLRP.Props.C16
+import LLRP.Props.C17
